@@ -309,6 +309,9 @@ func regCheck(res *vs.Result, user any) []vs.Violation {
 		if c.Done && c.Reply != nil {
 			if errors.Is(c.Reply.ExtensionFields.Err, service.ErrNotExistKey) {
 				target = -1
+				if c.TimeoutMs > 0 && c.ClockDone-c.ClockStart >= int64(c.TimeoutMs)*1e6 {
+					add("not-exist-not-at-once", fmt.Sprintf("%s: ErrNotExistKey came only after %d ms of virtual time (timeout %d ms): the refusal waited out the timer", c.Name, (c.ClockDone-c.ClockStart)/1e6, c.TimeoutMs))
+				}
 			} else if pf, err := ref.Decode(c.Snap.PlatData); err == nil {
 				serial = pf.Serial
 				for i, cn := range conns {
